@@ -1,0 +1,113 @@
+package nodeutil
+
+import (
+	"fmt"
+	"math"
+	"reflect"
+)
+
+// convertExact converts a value to the Go type of the field (or slice element) that is to
+// hold it. A number the field cannot hold - out of its range, negative for an unsigned
+// field, a fraction for an integer field - is an error: reflect's own Convert wraps around
+// and truncates without a word.
+func convertExact(value reflect.Value, to reflect.Type) (reflect.Value, error) {
+	if value.Type() == to {
+		return value, nil
+	}
+	if value.Kind() == reflect.Slice && to.Kind() == reflect.Slice && value.Type().Elem().Kind() != reflect.Uint8 {
+		out := reflect.MakeSlice(to, value.Len(), value.Len())
+		for i := 0; i < value.Len(); i++ {
+			item, err := convertExact(value.Index(i), to.Elem())
+			if err != nil {
+				return value, err
+			}
+			out.Index(i).Set(item)
+		}
+		return out, nil
+	}
+	if isNumberKind(value.Kind()) && isNumberKind(to.Kind()) {
+		target := reflect.New(to).Elem()
+		refuse := func() (reflect.Value, error) {
+			return value, fmt.Errorf("%v does not fit into a field of type %v", value.Interface(), to)
+		}
+		switch {
+		case target.CanInt():
+			var x int64
+			switch {
+			case value.CanInt():
+				x = value.Int()
+			case value.CanUint():
+				if value.Uint() > math.MaxInt64 {
+					return refuse()
+				}
+				x = int64(value.Uint())
+			default:
+				f := value.Float()
+				if f != math.Trunc(f) || f < -9223372036854775808.0 || f >= 9223372036854775808.0 {
+					return refuse()
+				}
+				x = int64(f)
+			}
+			if target.OverflowInt(x) {
+				return refuse()
+			}
+			target.SetInt(x)
+		case target.CanUint():
+			var x uint64
+			switch {
+			case value.CanInt():
+				if value.Int() < 0 {
+					return refuse()
+				}
+				x = uint64(value.Int())
+			case value.CanUint():
+				x = value.Uint()
+			default:
+				f := value.Float()
+				if f != math.Trunc(f) || f < 0 || f >= 18446744073709551616.0 {
+					return refuse()
+				}
+				x = uint64(f)
+			}
+			if target.OverflowUint(x) {
+				return refuse()
+			}
+			target.SetUint(x)
+		default:
+			var f float64
+			switch {
+			case value.CanInt():
+				f = float64(value.Int())
+				if int64(f) != value.Int() {
+					return refuse()
+				}
+			case value.CanUint():
+				f = float64(value.Uint())
+				if f >= 18446744073709551616.0 || uint64(f) != value.Uint() {
+					return refuse()
+				}
+			default:
+				f = value.Float()
+			}
+			if target.OverflowFloat(f) {
+				return refuse()
+			}
+			target.SetFloat(f)
+		}
+		return target, nil
+	}
+	if value.CanConvert(to) {
+		return value.Convert(to), nil
+	}
+	return value, fmt.Errorf("cannot convert value of '%v' to '%v'", value.Type(), to)
+}
+
+func isNumberKind(k reflect.Kind) bool {
+	switch k {
+	case reflect.Int, reflect.Int8, reflect.Int16, reflect.Int32, reflect.Int64,
+		reflect.Uint, reflect.Uint8, reflect.Uint16, reflect.Uint32, reflect.Uint64,
+		reflect.Float32, reflect.Float64:
+		return true
+	}
+	return false
+}
